@@ -1309,6 +1309,13 @@ func (x *Exec) addrOf(s *State, v ssa.Value) *Addr {
 // finish handles a return from the function under verification.
 func (x *Exec) finish(s *State, ret *ssa.Return, rs []Val) {
 	x.returns++
+	// vacuity guard: the hypotheses on (at least one) return path must be satisfiable
+	if x.returns <= 6 {
+		x.curInstr = ret
+		name := fmt.Sprintf("%s#cover:return-reachable", funcDisplayName(x.fn))
+		x.obls = append(x.obls, &Obligation{Name: name, Func: funcDisplayName(x.fn), Kind: "cover", Props: x.c.Props, Goal: smt.True,
+			Hyps: append([]*smt.Term{}, s.pc...), Pos: x.posOf(ret), Expect: "sat", Src: "requires and path condition are satisfiable (vacuity guard)"})
+	}
 	results := map[string]SVal{}
 	sig := x.fn.Signature
 	for i, r := range rs {
@@ -1478,8 +1485,10 @@ func (x *Exec) assumeAllocated(s *State, r *smt.Term) {
 	if r.Op == "var" && strings.HasPrefix(r.Name, "p$") {
 		cur = x.entryAlloc()
 	}
-	if r.Op == "select" && r.Args[0].Op == "var" && strings.HasSuffix(r.Args[0].Name, "@"+x.epoch) {
-		cur = x.entryAlloc()
+	if r.Op == "select" && r.Args[0].Op == "var" && strings.HasSuffix(r.Args[0].Name, "@"+x.epoch) && r.Args[1].Sort == smt.Ref {
+		// read from the unmodified entry heap: if the object read from existed at entry, so did what it points to
+		// (an object created since then may of course point to newer objects)
+		s.assume(smt.Implies(smt.Select(x.entryAlloc(), RootOf(r.Args[1])), smt.Or(smt.Eq(r, RefNil), smt.Select(x.entryAlloc(), RootOf(r)))))
 	}
 	s.assume(smt.Or(smt.Eq(r, RefNil), smt.Select(cur, RootOf(r))))
 }
